@@ -149,3 +149,50 @@ func init() {
 		return Prose(r, size), "prose/" + strconv.Itoa(size)
 	}, nil)
 }
+
+// bigdoc: documents of 8-40 KiB built from many small line-structured and
+// soup documents, so that the streaming parser's 8 KiB reads, buffer growth and
+// re-slicing are exercised with real block structure (hundreds of root blocks).
+// Hostile bytes (NUL, CR, CRLF, a multi-byte character) are planted right at
+// multiples of 8192 so that they straddle read boundaries.
+func init() {
+	register("bigdoc", func(r *core.Rand, index uint64, profile string) ([]byte, string) {
+		target := r.Range(8*1024, 40*1024)
+		var out []byte
+		for len(out) < target {
+			var d []byte
+			switch r.Intn(4) {
+			case 0:
+				d = Soup(r.Fork(), "crnul", 1, 30)
+			case 1:
+				d = Lines(r.Fork(), "hostile")
+			default:
+				d = Lines(r.Fork(), "default")
+			}
+			out = append(out, d...)
+			switch r.Intn(4) {
+			case 0:
+				out = append(out, "\n\n"...)
+			case 1:
+				out = append(out, "\r\n\r\n"...)
+			case 2:
+				out = append(out, "\n"...)
+			default:
+				out = append(out, "\n \t\n\n"...)
+			}
+		}
+		plant := [][]byte{{0}, {0, 0, 0}, {'\r'}, {'\r', '\n'}, []byte("é"), []byte("日"), {'\n'}, {' ', ' ', '\n'}, {'`'}, {'\\'}}
+		for k := 8192; k < len(out); k += 8192 {
+			if r.Intn(3) == 0 {
+				continue
+			}
+			p := plant[r.Intn(len(plant))]
+			at := k - r.Intn(len(p)+1) // straddle the boundary
+			if at < 0 || at+len(p) > len(out) {
+				continue
+			}
+			copy(out[at:], p)
+		}
+		return out, "bigdoc"
+	}, nil)
+}
